@@ -1106,8 +1106,12 @@ func (p *partition) handleReplicationResponse(msg *nats.Msg) int {
 	}
 	p.mu.RUnlock()
 
-	// Update HW from leader's HW.
-	p.log.SetHighWatermark(hw)
+	// Update HW from leader's HW. The leader's HW can be ahead of this
+	// replica's log (e.g. while the replica is catching up, or for the messages
+	// carried by this very response), but a replica's HW must never point past
+	// the end of its own log: committed readers on the replica look the HW up
+	// in the log and fail if it is not there yet.
+	p.log.SetHighWatermark(minInt64(hw, p.log.NewestOffset()))
 
 	if len(data) == 0 {
 		return 0
@@ -1126,6 +1130,8 @@ func (p *partition) handleReplicationResponse(msg *nats.Msg) int {
 	if err != nil {
 		panic(fmt.Errorf("Failed to replicate data to log %s: %v", p, err))
 	}
+	// The leader's HW may cover some of the messages just appended.
+	p.log.SetHighWatermark(minInt64(hw, p.log.NewestOffset()))
 	return len(offsets)
 }
 
@@ -1990,6 +1996,14 @@ func computeTick(timeElapsed, maxSleep time.Duration) time.Duration {
 		tick = maxSleep
 	}
 	return tick
+}
+
+// minInt64 returns the smaller of the two values.
+func minInt64(a, b int64) int64 {
+	if a < b {
+		return a
+	}
+	return b
 }
 
 // min returns the minimum int64 contained in the slice.
